@@ -653,7 +653,7 @@ func layoutQueueMeta(c *eng.Ctx) {
 		if !strings.HasPrefix(p.FuncKey(f), qT+".") && p.FuncKey(f) != "pkg/queue.NewQueue" {
 			continue
 		}
-		for _, s := range p.Sites(f, invokeOn(".metaPage", "PutUint64")) {
+		for _, s := range p.SitesDirect(f, invokeOn(".metaPage", "PutUint64")) {
 			cl := s.Instr.(*ssa.Call)
 			args := eng.CallArgs(cl)
 			off, ok := eng.ConstInt(args[1])
